@@ -166,6 +166,16 @@ func (e *Engine) BuildVC(fn *ssa.Function) (vc *FnVC) {
 		// postconditions are evaluated with parameter names bound to entry values
 		pfr := &frame{fn: fn, names: map[string]*ssa.Alloc{}, spec: sp, vals: fr.vals, lets: fr.lets}
 		vc.ghostExit(pfr, fin, sp, vars)
+		if pl := vc.declareLetsP(pfr, sp, fin, vars, true); pl != nil {
+			merged := map[string]val{}
+			for k, v := range pfr.lets {
+				merged[k] = v
+			}
+			for k, v := range pl {
+				merged[k] = v
+			}
+			pfr.lets = merged
+		}
 		// postconditions may mention parameters (entry values), results and lets only: local variables are not in scope
 		for _, c := range sp.Clauses {
 			if c.Kind != "ensures" {
@@ -520,12 +530,28 @@ func walkExpr(e Expr, f func(Expr)) {
 // declareLets introduces the contract-local spec functions of sp (uninterpreted, with their defining axioms
 // evaluated in state st, which is the pre-state of the call / the entry state of the function).
 func (vc *FnVC) declareLets(fr *frame, sp *FuncSpec, st *state, vars map[string]val) map[string]val {
-	if len(sp.Lets) == 0 {
+	return vc.declareLetsP(fr, sp, st, vars, false)
+}
+
+type letShape struct{ shape, name, reach string }
+
+// declareLetsP declares the contract-local functions of the entry state (post == false) or of the exit state (letpost).
+func (vc *FnVC) declareLetsP(fr *frame, sp *FuncSpec, st *state, vars map[string]val, post bool) map[string]val {
+	n := 0
+	for _, ls := range sp.Lets {
+		if ls.Post == post {
+			n++
+		}
+	}
+	if n == 0 {
 		return nil
 	}
 	lets := map[string]val{}
 	c := vc.newCtx(fr, st, st, vars)
 	for _, ls := range sp.Lets {
+		if ls.Post != post {
+			continue
+		}
 		name := vc.newName("let:" + ls.Name)
 		var ps []string
 		for _, p := range ls.Params {
@@ -553,12 +579,55 @@ func (vc *FnVC) declareLets(fr *frame, sp *FuncSpec, st *state, vars map[string]
 		all[k] = v
 	}
 	for _, ls := range sp.Lets {
+		if ls.Post != post {
+			continue
+		}
+		var axs []string
 		for _, ax := range ls.Axioms {
-			t := vc.evalBool(fr, st, st, ax, all)
-			vc.assume("true", t)
+			axs = append(axs, vc.evalBool(fr, st, st, ax, all))
+		}
+		// Two contract-local functions with the same defining axioms over the same state terms are the same function
+		// (each contract holds for every function satisfying its axioms, so one witness may serve both): this is what
+		// lets a caller's letpost chain meet the chain of a callee's contract without an induction.
+		name := lets["let$"+ls.Name].t
+		key := strings.ReplaceAll(strings.Join(axs, "\n"), name, "$LET")
+		if vc.letMemo == nil {
+			vc.letMemo = map[string]string{}
+		}
+		if prev, ok := vc.letMemo[key]; ok && !strings.Contains(key, "unreadable") {
+			v := lets["let$"+ls.Name]
+			v.t = prev
+			lets["let$"+ls.Name] = v
+			all["let$"+ls.Name] = v
+			continue
+		}
+		vc.letMemo[key] = name
+		for _, t := range axs {
+			vc.assume(st.reach, t)
+		}
+		// Induction schema instance: a function defined earlier in this VC by axioms of the same shape (the chain of a
+		// callee's contract, say) agrees with this one on all k >= 0 if they agree at 0 and agreement is inherited from k
+		// to k+1. The instance is a valid formula of arithmetic; the solver has to establish its premises.
+		if len(ls.Params) == 1 && ls.Params[0].Type == "int" {
+			var shape []string
+			for _, ax := range ls.Axioms {
+				shape = append(shape, strings.ReplaceAll(ax.String(), ls.Name+"(", "$F("))
+			}
+			sk := strings.Join(shape, ";")
+			for _, prev := range vc.letShapes {
+				if prev.shape != sk || prev.name == name {
+					continue
+				}
+				pc := fmt.Sprintf("(and %s %s)", prev.reach, st.reach)
+				k := vc.newName("ik")
+				P := func(i string) string { return fmt.Sprintf("(=> %s (= (%s %s) (%s %s)))", pc, prev.name, i, name, i) }
+				vc.emit("(assert (=> (and %s (forall ((%s Int)) (=> (and (>= %s 0) %s) %s))) (forall ((%s Int)) (=> (>= %s 0) %s))))",
+					P("0"), k, k, P(k), P(fmt.Sprintf("(+ %s 1)", k)), k, k, P(k))
+			}
+			vc.letShapes = append(vc.letShapes, letShape{shape: sk, name: name, reach: st.reach})
 		}
 	}
-	vc.assumption("contract-local spec functions (let) are total functions of the pre-state defined by their axioms")
+	vc.assumption("contract-local spec functions (let / letpost) are total functions of the pre-state (exit state) defined by their axioms")
 	return lets
 }
 
